@@ -93,11 +93,13 @@ def impl_pred(g, cls=None, probe=None):
     return model.predict_win(teams), model.predict_draw(teams), model.predict_rank(teams)
 
 
-def corr_pred(res, games, kind_on_mismatch, label, which=("win", "draw", "rank")):
+def corr_pred(res, games, kind_on_mismatch, label, which=("win", "draw", "rank"), hp=False):
     drv = Driver()
     lines = []
     for g in games:
-        lines += pred_lines(g)
+        lines += [("H" + l) if hp else l for l in pred_lines(g)]
+    if hp:
+        res.count("highprec_prediction_comparisons", len(games))
     outs = drv.run(lines)
     for k, g in enumerate(games):
         inp = dict(type="pred", game=g)
@@ -123,7 +125,7 @@ def corr_pred(res, games, kind_on_mismatch, label, which=("win", "draw", "rank")
                 mps = [p for (_, p) in mr]
                 safe = all((ps[a] == ps[b] and mps[a] == mps[b]) or abs(ps[a] - ps[b]) > 1e-8
                            for a in range(len(ps)) for b in range(a + 1, len(ps)))
-                if safe and [a for (a, _) in r] != [a for (a, _) in mr]:
+                if safe and not hp and [a for (a, _) in r] != [a for (a, _) in mr]:
                     res.fail(kind_on_mismatch, "%s: predict_rank ranks %r differ from the model %r" % (label, r, mr), inp)
 
 
@@ -394,6 +396,7 @@ def c12(res):
         res.case(g); describe(res, g)
         games.append(g)
     corr_pred(res, games, "property", "C12 closed forms")
+    corr_pred(res, games[:: max(1, len(games) // size(res, 150, 60))], "property", "C12 closed forms (192-bit evaluation)", hp=True)
     res.rule = ("predict_win / predict_draw / predict_rank on the implementation against the Lean model evaluated at Float with its own "
                 "erfc-based Phi and bisection/Newton Phi^-1 (independent of CPython's NormalDist), 1e-9 absolute; the model is proved equal "
                 "to the documented closed forms (theorems R5)")
